@@ -256,6 +256,14 @@ def work_e2e(p):
             called.add((f"{app}.__main__", "entry"))
             called.add((f"{app}.__main__", "parse"))
         script += ["main_helper(1)", "MainK().mm(2)", "textwrap.dedent(' y')", "import json; json.dumps({'a': 1})", ""]
+        double = spec.get("double_import")
+        if double:
+            # the script's own file is also imported under its module name (an app that does `from app import ...` while being run as
+            # `python app.py`): the imported copy's functions belong to module `script`, not to __main__
+            script += ["import script as _self", "_self.main_helper(3)", "_self.MainK().mm(4)", ""]
+            if mode == "default":  # (the custom filter and the allow-lists reject the script's file)
+                called.add(("script", "main_helper"))
+                called.add(("script", "MainK.mm"))
         open(os.path.join(sd, "script.py"), "w").write("\n".join(script))
         mode = spec["mode"]
         db = os.path.join(sd, "t.sqlite3")
@@ -273,7 +281,10 @@ def work_e2e(p):
             accepted = {(m, f) for (m, f) in called if f.split(".")[-1] in names}
         else:
             accepted = set(called)
-        r = subprocess.run([core.PY] + args + ["run", "script.py"], env=env, cwd=sd, capture_output=True, text=True, timeout=120)
+        script_arg = os.path.join(sd, "script.py") if double == "absolute" else "script.py"
+        if double:
+            res.count("e2e_double_import_" + double)
+        r = subprocess.run([core.PY] + args + ["run", script_arg], env=env, cwd=sd, capture_output=True, text=True, timeout=120)
         res.count("evaluations")
         res.count("e2e_runs")
         res.count("e2e_" + mode)
@@ -291,7 +302,7 @@ def work_e2e(p):
         if main_rows:
             res.violation("main-function-recorded", f"rows for __main__ functions: {sorted(main_rows)}", wit)
         foreign = {x for x in rows if x[0] != "__main__" and x not in accepted}
-        lib = {x for x in foreign if not x[0].startswith(("vfuser", "vfapp"))}
+        lib = {x for x in foreign if not x[0].startswith(("vfuser", "vfapp")) and x[0] != "script"}
         if lib:
             res.violation("rejected-library-function-recorded", f"rows for library functions: {sorted(lib)[:5]} (mode {mode})", wit)
         rej = foreign - lib
@@ -338,7 +349,8 @@ def run(ck):
         for r in core.pmap("vf.props.c17:work_filter", payloads[lo:lo + 32], nproc=32, timeout=3000):
             ck.merge(r)
     nscripts = 72 if quick else 600
-    specs = [{"name": f"s{ck.seed}_{i}", "seed": f"C17:{ck.seed}:{i}", "mode": ["default", "allow", "custom"][i % 3]} for i in range(nscripts)]
+    specs = [{"name": f"s{ck.seed}_{i}", "seed": f"C17:{ck.seed}:{i}", "mode": ["default", "allow", "custom"][i % 3],
+              "double_import": [None, "relative", None, "absolute"][(i // 3) % 4]} for i in range(nscripts)]
     m = min(n, nscripts)
     for r in core.pmap("vf.props.c17:work_e2e", [{"scripts": specs[i::m]} for i in range(m)], timeout=3000):
         ck.merge(r)
